@@ -74,7 +74,7 @@ static void run_seq(const tscn *s, long idx) {
         const uint32_t *dd = (call & 1) ? d2 : d1; size_t dn = (call & 1) ? n2 : n1; void *dl = (call & 1) ? dl2 : dl1;
         void *tok = (void *)-1; int e;
         probes_reset(); errno = 0;
-        g_shm->in_call = 1;
+        g_shm->in_call = 1; g_cur_fn = w ? "wcstok_s" : "strtok_s";
         if (w) FENCED(tok = _wcstok_s_chk(call == 0 ? (wchar_t *)buf : NULL, dmaxp, dl, (wchar_t **)ptr, call == 0 ? bos : 0));
         else   FENCED(tok = _strtok_s_chk(call == 0 ? (char *)buf : NULL, dmaxp, dl, (char **)ptr, call == 0 ? bos : 0));
         g_shm->in_call = 0; e = errno;
@@ -151,7 +151,7 @@ static void gen(void) {
             g_shm->cur = my; run_seq(&s, my);
         } }
 }
-static void body(void *a, long lo, long hi) { (void)a; (void)hi; g_skip_below = lo; gen(); for (int i = 0; i < K_NUM; i++) __sync_fetch_and_add(&CTR(i), K[i]); distinct_emit(); }
+static void body(void *a, long lo, long hi) { (void)a; (void)hi; g_skip_below = lo; gen(); for (int i = 0; i < K_NUM; i++) __sync_fetch_and_add(&CTR(i), K[i]); __sync_fetch_and_add(&CTR(60), g_fp_checks); distinct_emit(); }
 static void on_death(void *a, long idx, int status, int hung) {
     (void)a; char key[200], what[300], w[300]; CTR(K_DEATH)++;
     if (!g_shm->in_call) { fprintf(g_out, "{\"t\":\"harness_error\",\"idx\":%ld,\"status\":%d}\n", idx, status); fflush(g_out); return; }
@@ -172,9 +172,10 @@ int main(int argc, char **argv) {
         else if (!strcmp(argv[i], "--verbose")) g_verbose = 1;
         else { fprintf(stderr, "unknown arg %s\n", argv[i]); return 2; }
     }
-    arena_init(); fence_init(); shm_init(); probes_install();
+    arena_init(); fence_init(); shm_init(); probes_install(); fp_init();
     int dummy = 0; run_supervised(body, on_death, &dummy, 0, 1L << 40, 30);
     for (int i = 0; i < K_NUM; i++) emit_counter(KN[i], CTR(i));
+    emit_counter("footprint_checks", CTR(60));
     fprintf(g_out, "{\"t\":\"end\"}\n"); fflush(g_out);
     return 0;
 }
